@@ -213,7 +213,9 @@ func summariseLengthRegexValidator(p *Prog, fn *ssa.Function, idx int) (LangSpec
 	if !ok {
 		return spec, []string{"accept condition is not a conjunction: " + A.String()}, false
 	}
-	isParam := func(t *Term) bool { return t != nil && t.Op == "param" && strings.HasPrefix(t.Name, fmt.Sprintf("%d:", idx)) }
+	isParam := func(t *Term) bool {
+		return t != nil && t.Op == "param" && strings.HasPrefix(t.Name, fmt.Sprintf("%d:", idx))
+	}
 	isLen := func(t *Term) bool { return t.IsCall("builtin:len") && len(t.Args) == 1 && isParam(t.Args[0]) }
 	var other []string
 	var pats []string
@@ -471,7 +473,7 @@ type fieldExpect struct {
 	Optional bool // empty allowed, otherwise the other constraints
 	NonNil   bool
 	Valid    bool
-	AddrNE   bool // parsed address not empty (redundant with bech32, allowed)
+	AddrNE   bool   // parsed address not empty (redundant with bech32, allowed)
 	NoNUL    string // "allowed" | "required" | ""
 }
 
